@@ -26,6 +26,20 @@ CHECKS = {
   "run through the real evaluator; the result must equal the model's deletion. Held on the cases generated.",
   "Alias-free JSON-model documents; deleting the root is not generated; the deriving functions are computed by the C01 reference interpreter.",
   "DESIGN.md §5 C03"),
+ "C12": ("fault_enumeration",
+  "syscall-level fault and crash injection on the real binary (own ptrace injector, cross-checked per case by an strace recording) with an outcome oracle on the file afterwards",
+  "For each (expression, file, mode, flags) pair and both TMPDIR placements (same fs / other fs = real EXDEV) the in-place protocol is recorded, then every protocol syscall occurrence "
+  "(openat, newfstatat, fchmodat, fchownat, read, write, copy_file_range, fsync, close, renameat, unlinkat...) is made to fail with each plausible errno and the process is SIGKILLed at its entry; "
+  "plus every fault inside the copy fallback after an injected rename error. exit 0 => new content and same mode; exit != 0 => old bytes and mode; killed => old or new in full; front matter tail preserved. "
+  "Every recorded protocol syscall kind must actually have been hit or the run is inconclusive.",
+  "One fault (or rename error + one fault) per run at syscall granularity on Linux x86-64; short writes, a disk that stays full and power loss without fsync are not modelled; trusts ~300 lines of own ptrace code (decoding cross-checked with strace).",
+  "DESIGN.md §5 C12"),
+ "C14": ("exploration",
+  "independent-reader monitor: yq's encodings are read back by readers that share no code with yq (own properties/CSV/XML-tree/TOML/Lua readers and writers, gopher-lua execution, python tomllib cross-validation, stdlib base64/url) and yq's decodings are compared with generator ground truth",
+  "19 cells (format x {encode, decode, in-expression pair}) get equal shares; preferences (separators, attribute prefix, content name, indent, unquoted Lua keys, auto-parse) are varied; "
+  "a sample goes through the real binary. Deviations are excused only by exact matchers (quirk switches in the own readers). Held on the values generated.",
+  "Per-format representable domains are stated in the evidence assumptions; the TOML encoder (scalars only) and comments on the encode side are not covered.",
+  "DESIGN.md §5 C14"),
  "C15": ("exploration",
   "law monitor: permutation, stability, idempotence, antisymmetry, transitivity and input-order independence observed on real sort/compare executions, plus agreement with a reference preorder",
   "Pools mixing null/bool/ints (64-bit extremes, hex/octal)/floats/number-like strings are sorted, pairwise sorted and compared through the real evaluator; "
